@@ -18,7 +18,8 @@
 (*  Jobs == MCJobs.)                                                          *)
 EXTENDS Relax, TLC
 
-CONSTANTS Design, Announce
+CONSTANTS Design, Announce,
+          Orders      \* orders of the relocation list explored by "legal": subset of {"append", "inplace"}
 
 MCInit == /\ job \in 1..Len(Jobs)
           /\ ph = "start" /\ nxt = 0 /\ sub = NoSub /\ dst = StartDst /\ placed = <<>> /\ cur = NoCur /\ fail = ""
@@ -31,7 +32,7 @@ ShortFormsReach(d, K, addrs, ord) ==
     \A k \in 1..Len(m) : InReach(d, m[k]) => InReach(after, k)
 LegalChoices(d) ==
     {c \in {<<K, a, od>> : K \in SUBSET {r \in Candidates(d) : RdOK(d, r)},
-                           a \in {1, 2}, od \in {"append", "inplace"}} :
+                           a \in {1, 2}, od \in Orders} :
         ShortFormsReach(d, c[1], IF c[2] = 1 THEN FixedAddrs(d, c[1]) ELSE KeepAddrs(d), c[3])}
 
 \* situations of the property's text, announced so that the engine can show they are all explored
